@@ -82,6 +82,96 @@ def run_pair(acc: Acc, ca: Cfg, cb: Cfg, variant: str) -> None:
     acc.outcome(("pair", len(sp1.rules_dict), len(sp2.rules_dict)))
 
 
+def run_pair_t(acc: Acc, na: str, ta, nb: str, tb, variant: str) -> None:
+    """T-domain (finite table universes, mc/domain_t.py): classes that are equivalent to an atom
+    and decomposable at once, shared between two parents.  Oracles: no exception; each returned
+    specification is closed and counts like the table's own polynomial (plain recursion); the
+    pair is isomorphic in both directions."""
+    from comb_spec_searcher import CombinatorialSpecificationSearcher
+    from comb_spec_searcher.bijection import EqPathParallelSpecFinder, ParallelSpecFinder
+    from comb_spec_searcher.exception import NoMoreClassesToExpandError
+    from comb_spec_searcher.isomorphism import Isomorphism
+    from mc import domain_t as dt
+
+    Finder = ParallelSpecFinder if variant.startswith("plain") else EqPathParallelSpecFinder
+    where = f"{variant}: {na} || {nb}"
+    payload = {"domain": "T", "a": [na, dt.T(ta, "R").to_jsonable()["table"]], "b": [nb, dt.T(tb, "R").to_jsonable()["table"]], "variant": variant}
+    acc.count("traces")
+    acc.count("evaluations")
+    dec = env.Decisions()
+    clock = env.VirtualClock(dec)
+    with env.seams(clock=clock, dec=dec):
+        try:
+            with deadline(60):
+                ss = []
+                for t in (ta, tb):
+                    css = CombinatorialSpecificationSearcher(dt.T(t, "R"), dt.t_pack())
+                    try:
+                        for _ in range(12):
+                            css.do_level()
+                    except NoMoreClassesToExpandError:
+                        pass
+                    ss.append(css)
+                res = Finder(ss[0], ss[1]).find()
+        except Exception as e:  # noqa: BLE001
+            acc.violation("finder-raises", call_site(e), where, f"{type(e).__name__}: {str(e)[:200]}", payload)
+            return
+    if res is None:
+        acc.outcome("none")
+        if ta == tb:
+            acc.count("identical_tables_not_matched")
+        return
+    try:
+        sp1, sp2 = res
+    except Exception:  # noqa: BLE001
+        acc.violation("bad-return-value", "ParallelSpecFinder.find", where, f"returned {type(res).__name__}", payload)
+        return
+    try:
+        for t, sp, nm in ((ta, sp1, na), (tb, sp2, nb)):
+            if sp.root != dt.T(t, "R"):
+                acc.violation("returned-specification-invalid", "ParallelSpecFinder._create_spec", where, f"{nm}: root is {sp.root!r}", payload)
+                return
+            for rule in sp.rules_dict.values():
+                for ch in rule.children:
+                    if ch not in sp.rules_dict:
+                        acc.violation("returned-specification-invalid", "ParallelSpecFinder._create_spec", where, f"{nm}: child {ch!r} of the rule of {rule.comb_class!r} has no rule", payload)
+                        return
+            got = [sp.count_objects_of_size(n) for n in range(9)]
+            want = [dt.count(t, "R", n) for n in range(9)]
+            if got != want:
+                acc.violation("returned-specification-invalid", "ParallelSpecFinder._create_spec", where, f"{nm}: counts {got}, the table gives {want}", payload)
+                return
+        fwd, bwd = Isomorphism.check(sp1, sp2), Isomorphism.check(sp2, sp1)
+    except Exception as e:  # noqa: BLE001
+        acc.violation("finder-raises", call_site(e), where, f"using the returned pair: {type(e).__name__}: {str(e)[:200]}", payload)
+        return
+    if not (fwd and bwd):
+        acc.violation("pair-not-isomorphic", "ParallelSpecFinder.find", where, f"the two returned specifications are not isomorphic (check: {fwd}, reversed: {bwd})", payload)
+        return
+    acc.nt((na, nb, variant))
+    acc.outcome(("pair", len(sp1.rules_dict), len(sp2.rules_dict)))
+
+
+def _worker_t(arg) -> Acc:
+    tier, lo, hi = arg
+    from mc import domain_t as dt
+
+    acc = Acc()
+    tabs = dt.tables(tier)
+    pairs = [(a, b) for a in tabs for b in tabs]
+    for (na, ta), (nb, tb) in pairs[lo:hi]:
+        # only tables with the same counting polynomial can be matched at all; a sample of the
+        # others is kept for the "nothing found" side
+        if dt.poly(ta, "R") != dt.poly(tb, "R") and hash((na, nb)) % 7:
+            continue
+        for variant in ("plain", "eqpath"):
+            run_pair_t(acc, na, ta, nb, tb, variant)
+    if lo == 0:
+        acc.sample({"domain": "T", "tables": [n for n, _ in tabs][:6], "pairs": len(pairs)})
+    env.clear_library_caches()
+    return acc
+
+
 def r_configs(tier: str) -> List[Tuple[Any, Any, str]]:
     """Regular languages (R-domain): every class has a first-letter and a last-letter
     decomposition, classes are shared between them, so the finder meets alternative rules,
@@ -170,7 +260,8 @@ def run(ctx: Ctx) -> None:
         "all ordered pairs of the quick start classes x packs x both finder variants (ParallelSpecFinder, "
         "EqPathParallelSpecFinder), both searchers fresh for every call; plus ordered pairs of the regular languages with <= 2 states "
         "(R-domain: first-letter and last-letter decompositions, alternative rules, shared classes; restricted strategy variants) and of the "
-        "languages with 3 states that have equal counts up to size 6 (quick: every 12th pair), both universes fully expanded first; non-trivial = distinct (first, second, finder) for "
+        "languages with 3 states that have equal counts up to size 6 (quick: every 12th pair), both universes fully expanded first; plus all ordered pairs of a family of finite table universes "
+        "(T-domain: classes equivalent to an atom that also decompose, shared between two parents) with equal counting polynomials and every 7th other pair; non-trivial = distinct (first, second, finder) for "
         "which a pair of specifications was returned and validated"
     )
     ctx.assumptions = ["C01/C02/C12 oracles on the returned pair", "sizes <= %d" % N]
@@ -178,7 +269,19 @@ def run(ctx: Ctx) -> None:
     chunk = 40
     items = [(a.to_json(), b.to_json(), v) for a, b, v in cfgs]
     ctx.pmap(_worker, [items[i : i + chunk] for i in range(0, len(items), chunk)])
+    # T-domain: finite table universes with classes equivalent to an atom and decomposable at once
+    from mc import domain_t as dt
+
+    nt = len(dt.tables(ctx.tier)) ** 2
+    ctx.bounds["table_universes"] = len(dt.tables(ctx.tier))
+    step = max(1, nt // 64)
+    ctx.pmap(_worker_t, [(ctx.tier, lo, min(lo + step, nt)) for lo in range(0, nt, step)])
 
 
 def replay(acc: Acc, payload: dict) -> None:
+    if payload.get("domain") == "T":
+        from mc import domain_t as dt
+
+        run_pair_t(acc, payload["a"][0], dt.table_from_json(payload["a"][1]), payload["b"][0], dt.table_from_json(payload["b"][1]), payload["variant"])
+        return
     run_pair(acc, Cfg.from_json(payload["a"]), Cfg.from_json(payload["b"]), payload["variant"])
